@@ -135,6 +135,26 @@ CHECKS["C52"] = dict(level="model_checking", technique="TLC model checking of th
          "runs the real tfel-check with -j 1, 2, 4, 8, 16 under schedule perturbation, parses tfel-check.log into Begin/Body/End events "
          "and validates them, with the exit status and the expected verdicts, against the model.",
     note="Sets with @Command at -j >= 2 can hang or crash (open finding shared with C30: SIGCHLD handler not async-signal-safe); those runs are reported as KNOWN-FINDING, all others are strict.", ref="8/C52")
+CHECKS["C48"] = dict(level="model_checking", technique="TLC model checking of MTest's time loop (MTestSolver.tla) + every behaviour of the model replayed into the real mtest with a probe behaviour; logs and result files validated against the model, loadings evaluated by TLC",
+    text="MTestSolver.tla models MTest::execute / GenericSolver::execute (attempt, update, revert, time-step reduction, clamp of the dynamic scaling, "
+         "rows written); ExactEnd, NoOvershoot, Contiguous, AllRequested and termination are model-checked for fixed and dynamic time-step "
+         "scaling and the model of the pinned clamp is rejected. TLC then enumerates every complete behaviour of the model (history of attempts "
+         "and outcomes, bounded number of failures); each becomes an .mtest file (4 hypotheses x 4 prediction policies x 4 mixed strain/stress "
+         "loading paths, piecewise linear and function evolutions) plus a fault plan for the probe behaviour; the real mtest is run and the probe's "
+         "call log merged with the rows of the result file is validated against the model: every attempt has the (t, dt) the model expects, "
+         "every row is written at the model's time, each imposed component equals its evolution (value computed by TLC, within the epsilons).",
+    note="The behaviour is linear (exact tangent), so MTest's own convergence difficulties are not exercised; hypotheses covered: Tridimensional, PlaneStrain, Axisymmetrical, AxisymmetricalGeneralisedPlaneStrain; plane stress and finite strain loadings are not covered. Identical retries produced by the clamp are model-checked but not replayed.", ref="8/C48")
+CHECKS["C50"] = dict(level="model_checking", technique="TLC model checking of MTest's sub-stepping (MTestSolver.tla) + every behaviour of the model replayed into the real mtest with fault injection, compared with the direct run on the accepted steps through state digests; validated by TLC",
+    text="Same model and replay as C48. The probe behaviour logs, at every call, a digest of the state it is given at the beginning of the step "
+         "(strain, stress, internal state variables, temperature) and of the increments; the trace specification requires that every retry after "
+         "a rejected attempt sees the digest of the committed state again, that every accepted step sees the same state and first increments as "
+         "the reference run performed directly on the accepted steps (prediction included), and that every row (Lagrange multipliers included, "
+         "17 digits) is identical to the reference's. Faults: integration failure, a posteriori rejection with factors 1/4, 3/8, 1/8, non-convergence.",
+    note="Counters that are pure statistics (number of iterations, of sub-steps) are not compared. Acceleration algorithms are not combined with fault injection.", ref="8/C50")
+CHECKS["C19"] = dict(level="exploration", technique="TLC-generated training sets on integer grids with TLC-computed geometric class (integer determinants), judged by TLC (Kriging.tla)",
+    text="Training sets in 1D/2D/3D (all small subsets of 0..5(7), the 3x3 grid and the unit cube, full grids up to 40 points, translated / anisotropic sets, repeated points, collinear / coplanar sets, too few points) with affine, quadratic and pulse integer values, nugget 0 and 1/4, through Kriging<N>, Kriging1D/2D/3D, KrigedFunction<N>, FactorizedKriging<1,1> and FactorizedKriging1D1D; TLC judges: a regular set builds, insufficient data throws, a built interpolant without nugget returns every training value (1e-9 relative), singular sets throw or still reproduce (never garbage), affine data is reproduced EXACTLY at half-integer probes inside and outside the hull (with or without nugget), nugget residuals sum to zero and are not null on non-affine data, wrappers equal the template on coordinates normalised to [0,1], KrigedFunction is bitwise the template.",
+    note="3910 sets quick / 8090 thorough, 2..40 points. Tolerance fixed a priori (observed errors <= 1e-11 relative). FactorizedKriging has no mathematical relation to Kriging<2>; it is judged by the same obligations plus exactness on its drift span (1, x1, x2; wrapper: 1, x2). FactorizedKriging1D2D/1D3D, non-default covariance models and off-grid random point sets are not covered.",
+    ref="8/C19")
 CHECKS["C39"] = dict(level="model_checking", technique="decode table of K[0] and return convention in TLA+ judged by TLC on calls of a generated probe behaviour + TLC model checking of the entry-point stages",
     text="A probe behaviour with distinguishable operators (1,2,3 x Id predictions; 10..40 x Id tangents) and a run-time selectable failure "
          "stage is generated by the current mfront (small strain, GreenLagrange and Hencky variants) and called through the real generic "
